@@ -9,6 +9,10 @@
 //!   5 m <name>           raw read     prop_raw(name).as_value()  on module m
 //!   7 at                 closes the current include and opens the next one: the entries (op 1) that follow belong to
 //!                        a separate configuration, included once `at` modules exist (the first uses `inc_at`)
+//!   8 m <name> ty        h = prop::<T>(name) on module m: a typed handle that is KEPT (handles are numbered in creation order)
+//!   9 h val              handles[h].set(val)      (h mod #handles)
+//!   10 h                 handles[h].get()
+//!   11 m <name>          prop_raw(name).clear() on module m
 //!   6 <key> val          late include: a further configuration  "key": val  is included when all nodes
 //!                        exist, in script order between the typed accesses (3/4/5/6 run in order)
 //! ty (mod 4): 0 u64, 1 i64, 2 String (decimal digits), 3 bool.
@@ -26,7 +30,10 @@
 //! <dump> = `10 n (<name> <value>)*n` sorted by name; <value> = `0 v` number | `1 n (<key> <value>)*n`
 //! mapping | `2 v` string of digits | `3 b` bool | `4` anything else | `6` absent;
 //! typed read -> `3 0` absent | `3 1 v` | `3 2` InvalidInput (type mismatch) | `3 3` other error;
-//! typed write -> `4 0` | `4 2` | `4 3`; raw read -> `5 <value>`; a panic -> `9 site`.
+//! typed write -> `4 0` | `4 2` | `4 3`; raw read -> `5 <value>`; handle creation -> `8 0` | `8 2` | `8 3`; set through a
+//! handle -> `13 0` | `13 7` (no such handle / its creation failed) | `9 4` (Prop::set panicked: the property holds another
+//! type); get through a handle -> `14 0` absent | `14 1 v` | `14 7` | `9 5` (panicked: type changed); clear -> `15`;
+//! any other panic -> `9 site`.
 use des::prelude::*;
 use des_net_utils::props::{Cfg, Prop, PropType, Props, RawProp};
 use implrun::Cur;
@@ -46,6 +53,35 @@ enum Op {
     Write(u64, String, u64, u64),
     Raw(u64, String),
     Include(String, u64),
+    Handle(u64, String, u64),
+    HSet(u64, u64),
+    HGet(u64),
+    Clear(u64, String),
+}
+
+/// a typed handle that outlives the lookup
+enum H {
+    U(Prop<u64>),
+    I(Prop<i64>),
+    S(Prop<String>),
+    B(Prop<bool>),
+}
+
+fn new_handle<T: PropType>(
+    o: &mut Vec<u64>,
+    r: Result<Prop<T>, std::io::Error>,
+    wrap: impl Fn(Prop<T>) -> H,
+) -> Option<H> {
+    match r {
+        Ok(p) => {
+            o.extend([8, 0]);
+            Some(wrap(p))
+        }
+        Err(e) => {
+            o.extend([8, err_code(&e)]);
+            None
+        }
+    }
 }
 
 fn valid_text(b: &[u64]) -> bool {
@@ -207,10 +243,66 @@ fn run_ops(out: &mut Vec<u64>, acc: &mut impl Access, nmods: usize, ops: &[Op]) 
     if nmods == 0 {
         return;
     }
+    let mut handles: Vec<Option<H>> = Vec::new();
     for op in ops {
         let r = catch_unwind(AssertUnwindSafe(|| {
             let mut o = Vec::new();
             match op {
+                Op::Handle(m, name, ty) => {
+                    let m = (*m % nmods as u64) as usize;
+                    let h = match ty % 4 {
+                        0 => new_handle::<u64>(&mut o, acc.typed(m, name), H::U),
+                        1 => new_handle::<i64>(&mut o, acc.typed(m, name), H::I),
+                        2 => new_handle::<String>(&mut o, acc.typed(m, name), H::S),
+                        _ => new_handle::<bool>(&mut o, acc.typed(m, name), H::B),
+                    };
+                    handles.push(h);
+                }
+                Op::HSet(h, v) => {
+                    let n = handles.len();
+                    match if n == 0 { None } else { handles[(*h % n as u64) as usize].as_mut() } {
+                        None => o.extend([13, 7]),
+                        Some(H::U(p)) => {
+                            p.set(*v);
+                            o.extend([13, 0]);
+                        }
+                        Some(H::I(p)) => {
+                            p.set(*v as i64);
+                            o.extend([13, 0]);
+                        }
+                        Some(H::S(p)) => {
+                            p.set(v.to_string());
+                            o.extend([13, 0]);
+                        }
+                        Some(H::B(p)) => {
+                            p.set(v % 2 == 1);
+                            o.extend([13, 0]);
+                        }
+                    }
+                }
+                Op::HGet(h) => {
+                    let n = handles.len();
+                    let got = match if n == 0 { None } else { handles[(*h % n as u64) as usize].as_ref() } {
+                        None => {
+                            o.extend([14, 7]);
+                            None
+                        }
+                        Some(H::U(p)) => Some(p.get()),
+                        Some(H::I(p)) => Some(p.get().map(|x| x as u64)),
+                        Some(H::S(p)) => Some(p.get().map(|x| x.parse::<u64>().unwrap_or(0))),
+                        Some(H::B(p)) => Some(p.get().map(|x| x as u64)),
+                    };
+                    match got {
+                        None => {}
+                        Some(None) => o.extend([14, 0]),
+                        Some(Some(v)) => o.extend([14, 1, v]),
+                    }
+                }
+                Op::Clear(m, name) => {
+                    let m = (*m % nmods as u64) as usize;
+                    acc.raw(m, name).clear();
+                    o.push(15);
+                }
                 Op::Read(m, name, ty) => {
                     let m = (*m % nmods as u64) as usize;
                     match ty % 4 {
@@ -240,7 +332,14 @@ fn run_ops(out: &mut Vec<u64>, acc: &mut impl Access, nmods: usize, ops: &[Op]) 
         }));
         match r {
             Ok(o) => out.extend(o),
-            Err(_) => out.extend([9, 3]),
+            Err(_) => out.extend([
+                9,
+                match op {
+                    Op::HSet(..) => 4,
+                    Op::HGet(..) => 5,
+                    _ => 3,
+                },
+            ]),
         }
     }
     for m in 0..nmods {
@@ -315,6 +414,30 @@ fn run_line(nums: &[u64]) -> Vec<u64> {
                 c.next();
                 let at = c.next();
                 groups.push((at, Vec::new()));
+            }
+            Some(8) => {
+                c.next();
+                let m = c.next();
+                let n = text(&mut c, &mut valid);
+                let ty = c.next();
+                ops.push(Op::Handle(m, n, ty));
+            }
+            Some(9) => {
+                c.next();
+                let h = c.next();
+                let v = c.next();
+                ops.push(Op::HSet(h, v));
+            }
+            Some(10) => {
+                c.next();
+                let h = c.next();
+                ops.push(Op::HGet(h));
+            }
+            Some(11) => {
+                c.next();
+                let m = c.next();
+                let n = text(&mut c, &mut valid);
+                ops.push(Op::Clear(m, n));
             }
             _ => break,
         }
